@@ -77,3 +77,25 @@ Theorem C18_hypotheses_satisfiable : exists src bait fo ops r,
   /\ Inv src r.
 Proof. exact C18_nonvacuous. Qed.
 Print Assumptions C18_hypotheses_satisfiable.
+
+(* ---- the invariant holds in REAL runs: every overlap result stored by the
+   remapping pipeline -- after all lookups, every round of the overhang
+   resolver and all cuts, for every Pretext map over every input whose rows are
+   at least 1 bp long -- satisfies Inv for the (numbered) input scaffold it was
+   taken from, hence is consistent (the pipeline edits a stored result only
+   through the four operations, or relabels it) *)
+From Tola Require Model.Remap Proofs.PipelineInv.
+Theorem C18_pipeline_Inv : forall c g prefix bpt input pretext rs,
+  Forall (fun isc => pos_rows (snd isc)) input ->
+  Model.Remap.remap_to_input c g prefix bpt input pretext = Ok rs ->
+  forall r, In r (Model.Remap.b_store (Model.Remap.rs_b rs)) ->
+    exists name src, In (name, src) (Model.Remap.number_input input 0) /\ Inv src r.
+Proof. exact Proofs.PipelineInv.pipeline_Inv. Qed.
+Print Assumptions C18_pipeline_Inv.
+
+Theorem C18_pipeline_consistent : forall c g prefix bpt input pretext rs,
+  Forall (fun isc => pos_rows (snd isc)) input ->
+  Model.Remap.remap_to_input c g prefix bpt input pretext = Ok rs ->
+  forall r, In r (Model.Remap.b_store (Model.Remap.rs_b rs)) -> consistent r.
+Proof. exact Proofs.PipelineInv.pipeline_consistent. Qed.
+Print Assumptions C18_pipeline_consistent.
